@@ -1,4 +1,5 @@
 import PsV.Proofs.Walk
+import PsV.Proofs.DerivSpec
 /-! Assembly: `ndsplineeval` (value mode) = `specEval`, for any number of dimensions. -/
 namespace PsV
 variable {α : Type} [Field α] [LinearOrder α]
@@ -23,12 +24,20 @@ def AllOK : List (Dim α) → List α → List Nat → Prop
   | d :: ds, x :: xs, c :: cs => (d.WF ∧ PointOK d x c) ∧ AllOK ds xs cs
   | _, _, _ => False
 
-def dimW (d : Dim α) (x : α) (c : Nat) : DimW α :=
-  ⟨d.stride, d.naxes, c - d.order, d.order + 1, fun i => Bsel d x 0 i⟩
+/-- value or single derivative (what the derivative bitmask selects) -/
+def FirstOrder (m : BasisMode) : Prop := m = .value ∨ m = .deriv1
 
-def dimWs : List (Dim α) → List α → List Nat → List (DimW α)
-  | d :: ds, x :: xs, c :: cs => dimW d x c :: dimWs ds xs cs
-  | _, _, _ => []
+def AllFirstOrder : List (Dim α) → List BasisMode → Prop
+  | [], [] => True
+  | _ :: ds, m :: ms => FirstOrder m ∧ AllFirstOrder ds ms
+  | _, _ => False
+
+def dimW (d : Dim α) (x : α) (c : Nat) (m : BasisMode) : DimW α :=
+  ⟨d.stride, d.naxes, c - d.order, d.order + 1, fun i => Bsel d x (derivOrder m) i⟩
+
+def dimWs : List (Dim α) → List α → List Nat → List BasisMode → List (DimW α)
+  | d :: ds, x :: xs, c :: cs, m :: ms => dimW d x c m :: dimWs ds xs cs ms
+  | _, _, _, _ => []
 
 theorem Bsel_value (d : Dim α) (x : α) (hwf : d.WF) (i : Nat) :
     Bsel d x 0 i = Bind (if x < d.knots ((d.nknots:Int) - d.order - 1) then indR d.knots x else indL d.knots x)
@@ -37,92 +46,134 @@ theorem Bsel_value (d : Dim α) (x : α) (hwf : d.WF) (i : Nat) :
     have := hwf.len; rw [hwf.naxes_eq]; omega
   simp only [Bsel, Dind, selInd, of_lt, hn, decide_eq_true_eq]
 
-theorem localRow_value (d : Dim α) (x : α) (c : Nat) (hwf : d.WF) (h : PointOK d x c) :
-    localRow d x c .value = (List.range' (c - d.order) (d.order + 1)).map (fun i => Bsel d x 0 i) := by
+theorem Bsel_deriv1 (d : Dim α) (x : α) (hwf : d.WF) (i : Nat) :
+    Bsel d x 1 i = Dind (if x < d.knots ((d.nknots:Int) - d.order - 1) then indR d.knots x else indL d.knots x)
+      d.knots x 1 d.order i := by
+  have hn : ((d.naxes : Nat) : Int) = (d.nknots:Int) - d.order - 1 := by
+    have := hwf.len; rw [hwf.naxes_eq]; omega
+  simp only [Bsel, selInd, of_lt, hn, decide_eq_true_eq]
+
+theorem localRow_spec (d : Dim α) (x : α) (c : Nat) (m : BasisMode) (hwf : d.WF) (h : PointOK d x c)
+    (hm : FirstOrder m) :
+    localRow d x c m = (List.range' (c - d.order) (d.order + 1)).map (fun i => Bsel d x (derivOrder m) i) := by
   obtain ⟨hc, hnd⟩ := h
   apply List.ext_getElem?
   intro j
-  by_cases hj : j ≤ d.order
-  · simp only [localRow]
-    rw [bsplvbSimple_spec d.knots d.nknots d.order x c hc hnd j hj]
-    rw [List.getElem?_map, List.getElem?_range' (by omega)]
-    simp only [Option.map_some]
-    rw [Bsel_value d x hwf]
-    congr 2
-    have := hc.lo
-    push_cast [Nat.cast_sub this]
-    ring
-  · have l1 : (localRow d x c .value).length = d.order + 1 := bsplvbSimple_length d.knots d.nknots d.order x c hc hnd
-    rw [List.getElem?_eq_none (by omega), List.getElem?_eq_none (by simp; omega)]
+  rcases hm with rfl | rfl
+  · by_cases hj : j ≤ d.order
+    · simp only [localRow, derivOrder]
+      rw [bsplvbSimple_spec d.knots d.nknots d.order x c hc hnd j hj]
+      rw [List.getElem?_map, List.getElem?_range' (by omega)]
+      simp only [Option.map_some]
+      rw [Bsel_value d x hwf]
+      congr 2
+      have := hc.lo
+      push_cast [Nat.cast_sub this]
+      ring
+    · have l1 : (localRow d x c .value).length = d.order + 1 := bsplvbSimple_length d.knots d.nknots d.order x c hc hnd
+      rw [List.getElem?_eq_none (by omega), List.getElem?_eq_none (by simp; omega)]
+  · obtain ⟨l1, hv⟩ := bsplineDerivNonzero_spec d.knots d.nknots d.order x c hc hnd
+    by_cases hj : j ≤ d.order
+    · simp only [localRow, derivOrder]
+      rw [hv j hj, List.getElem?_map, List.getElem?_range' (by omega)]
+      simp only [Option.map_some]
+      rw [Bsel_deriv1 d x hwf]
+      congr 2
+      have := hc.lo
+      push_cast [Nat.cast_sub this]
+      ring
+    · simp only [localRow]
+      rw [List.getElem?_eq_none (by omega), List.getElem?_eq_none (by simp; omega)]
 
-theorem dimW_OK (d : Dim α) (x : α) (c : Nat) (hwf : d.WF) (h : PointOK d x c) : (dimW d x c).OK := by
+theorem dimW_OK (d : Dim α) (x : α) (c : Nat) (m : BasisMode) (hwf : d.WF) (h : PointOK d x c)
+    (hm : FirstOrder m) : (dimW d x c m).OK := by
   obtain ⟨hc, hnd⟩ := h
   have hlo := hc.lo; have hhi := hc.hi; have hlen := hwf.len
   have hN : d.naxes = d.nknots - d.order - 1 := hwf.naxes_eq
   refine ⟨by simp only [dimW]; omega, ?_⟩
   intro i hi hout
   simp only [dimW] at hi hout ⊢
-  rw [Bsel_value d x hwf]
   have hs := marginShift_spec d.knots d.nknots d.order x c hc hnd
   obtain ⟨hl0, hl1, hb, hdown, hup⟩ := hs
   have hidx0 : (0:Int) ≤ (i:Int) := by omega
   have hidx1 : (i:Int) + d.order + 1 ≤ (d.nknots:Int) - 1 := by omega
-  have key : Bp d.knots x (marginShift d.knots d.nknots x c d.order) d.order i = 0 := by
-    apply Bp_zero_of_not_mem
+  have hnot : marginShift d.knots d.nknots x c d.order < (i:Int) ∨ (i:Int) + d.order < marginShift d.knots d.nknots x c d.order := by
     rcases hout with h | h
-    · -- i + order < c
-      right
+    · right
       by_cases hlc : marginShift d.knots d.nknots x c d.order < c
       · have := hdown hlc; omega
       · omega
-    · -- c < i
-      left
+    · left
       by_cases hlc : (c:Int) < marginShift d.knots d.nknots x c d.order
       · have := hup hlc; omega
       · omega
-  rcases hb with ⟨hx, b1, b2⟩ | ⟨hx, b1, b2⟩
-  · rw [if_pos hx, Bind_eq_Bp d.knots x d.nknots _ _ (indR_iff d.knots x d.nknots _ hc.mono hl0 hl1 b1 b2) d.order _ hidx0 hidx1]
-    exact key
-  · rw [if_neg (not_lt.mpr hx), Bind_eq_Bp d.knots x d.nknots _ _ (indL_iff d.knots x d.nknots _ hc.mono hl0 hl1 b1 b2) d.order _ hidx0 hidx1]
-    exact key
+  have hind : ∀ j : Int, 0 ≤ j → j ≤ (d.nknots:Int) - 2 →
+      ((if x < d.knots ((d.nknots:Int) - d.order - 1) then indR d.knots x else indL d.knots x) j = true ↔
+        j = marginShift d.knots d.nknots x c d.order) := by
+    rcases hb with ⟨hx, b1, b2⟩ | ⟨hx, b1, b2⟩
+    · rw [if_pos hx]; exact indR_iff d.knots x d.nknots _ hc.mono hl0 hl1 b1 b2
+    · rw [if_neg (not_lt.mpr hx)]; exact indL_iff d.knots x d.nknots _ hc.mono hl0 hl1 b1 b2
+  rcases hm with rfl | rfl
+  · simp only [derivOrder]
+    rw [Bsel_value d x hwf, Bind_eq_Bp d.knots x d.nknots _ _ hind d.order _ hidx0 hidx1]
+    exact Bp_zero_of_not_mem _ _ _ _ _ hnot
+  · simp only [derivOrder]
+    rw [Bsel_deriv1 d x hwf]
+    by_cases ho : d.order = 0
+    · rw [ho]; simp [Dind]
+    · obtain ⟨k, hk⟩ : ∃ k, d.order = k + 1 := ⟨d.order - 1, by omega⟩
+      have key : ∀ (n : Nat), n = k + 1 →
+          Dind (if x < d.knots ((d.nknots:Int) - d.order - 1) then indR d.knots x else indL d.knots x) d.knots x 1 n i
+            = DBp d.knots x (marginShift d.knots d.nknots x c d.order) k i := by
+        intro n hn
+        subst hn
+        exact Dind_one_eq_DBp d.knots x d.nknots _ _ hind k _ hidx0 (by rw [hk] at hidx1; push_cast at hidx1 ⊢; omega)
+      rw [key d.order hk]
+      exact DBp_zero_of_not_mem _ _ _ _ _ (by rw [hk] at hnot; push_cast at hnot ⊢; omega)
 
-theorem rows_eq_winRows : ∀ (ds : List (Dim α)) (xs : List α) (cs : List Nat), AllOK ds xs cs →
-    rows ds xs cs (List.replicate ds.length .value) = winRows (dimWs ds xs cs) ∧
-    specRows ds xs (List.replicate ds.length .value) = fullRows (dimWs ds xs cs) ∧
-    startPos ds cs = winOff (dimWs ds xs cs) ∧
-    (∀ e ∈ dimWs ds xs cs, e.OK) := by
+theorem rows_eq_winRows : ∀ (ds : List (Dim α)) (xs : List α) (cs : List Nat) (ms : List BasisMode),
+    AllOK ds xs cs → AllFirstOrder ds ms →
+    rows ds xs cs ms = winRows (dimWs ds xs cs ms) ∧
+    specRows ds xs ms = fullRows (dimWs ds xs cs ms) ∧
+    startPos ds cs = winOff (dimWs ds xs cs ms) ∧
+    (∀ e ∈ dimWs ds xs cs ms, e.OK) := by
   intro ds
   induction ds with
   | nil =>
-    intro xs cs h
+    intro xs cs ms h hm
     cases xs <;> cases cs <;> simp [AllOK] at h
+    cases ms <;> simp [AllFirstOrder] at hm
     simp [rows, specRows, startPos, dimWs, winRows, fullRows, winOff]
   | cons d ds ih =>
-    intro xs cs h
+    intro xs cs ms h hm
     cases xs with
     | nil => simp [AllOK] at h
     | cons x xs =>
       cases cs with
       | nil => simp [AllOK] at h
       | cons c cs =>
-        obtain ⟨⟨hwf, hp⟩, hrest⟩ := h
-        obtain ⟨i1, i2, i3, i4⟩ := ih xs cs hrest
-        refine ⟨?_, ?_, ?_, ?_⟩
-        · simp only [List.length_cons, List.replicate_succ, rows, dimWs, winRows, List.map_cons]
-          rw [i1, localRow_value d x c hwf hp]
-          rfl
-        · simp only [List.length_cons, List.replicate_succ, specRows, dimWs, fullRows, List.map_cons]
-          rw [i2]
-          rfl
-        · simp only [startPos, dimWs, winOff, i3, dimW]
-          have := hp.1.lo
-          push_cast [Nat.cast_sub this]
-          ring
-        · intro e he
-          simp only [dimWs, List.mem_cons] at he
-          rcases he with rfl | he
-          · exact dimW_OK d x c hwf hp
-          · exact i4 e he
+        cases ms with
+        | nil => simp [AllFirstOrder] at hm
+        | cons m ms =>
+          obtain ⟨⟨hwf, hp⟩, hrest⟩ := h
+          obtain ⟨hm1, hmrest⟩ := hm
+          obtain ⟨i1, i2, i3, i4⟩ := ih xs cs ms hrest hmrest
+          refine ⟨?_, ?_, ?_, ?_⟩
+          · simp only [rows, dimWs, winRows, List.map_cons]
+            rw [i1, localRow_spec d x c m hwf hp hm1]
+            rfl
+          · simp only [specRows, dimWs, fullRows, List.map_cons]
+            rw [i2]
+            rfl
+          · simp only [startPos, dimWs, winOff, i3, dimW]
+            have := hp.1.lo
+            push_cast [Nat.cast_sub this]
+            ring
+          · intro e he
+            simp only [dimWs, List.mem_cons] at he
+            rcases he with rfl | he
+            · exact dimW_OK d x c m hwf hp hm1
+            · exact i4 e he
 
 theorem maskModes_zero (n : Nat) : maskModes n 0 = List.replicate n .value := by
   simp only [maskModes, Nat.zero_testBit, Bool.false_eq_true, if_false]
@@ -173,16 +224,62 @@ theorem AllOK_lengths : ∀ (ds : List (Dim α)) (xs : List α) (cs : List Nat),
         simp only [List.length_cons]
         omega
 
+theorem AllFirstOrder_length : ∀ (ds : List (Dim α)) (ms : List BasisMode), AllFirstOrder ds ms → ds.length = ms.length := by
+  intro ds
+  induction ds with
+  | nil => intro ms h; cases ms <;> simp [AllFirstOrder] at h ⊢
+  | cons d ds ih =>
+    intro ms h
+    cases ms with
+    | nil => simp [AllFirstOrder] at h
+    | cons m ms => simp only [List.length_cons]; rw [ih ms h.2]
+
+/-- evaluation with any value / single-derivative mode list = specification sum -/
+theorem evalModes_eq_specEval (T : Table α) (xs : List α) (cs : List Nat) (ms : List BasisMode)
+    (hok : AllOK T.dims xs cs) (hms : AllFirstOrder T.dims ms) (hstride : lastStrideOne T.dims) :
+    evalModes T xs cs ms = specEval T xs ms := by
+  obtain ⟨r1, r2, r3, r4⟩ := rows_eq_winRows T.dims xs cs ms hok hms
+  obtain ⟨l1, l2⟩ := AllOK_lengths T.dims xs cs hok
+  unfold evalModes specEval
+  have hl := rows_lastStride T.dims xs cs ms l1 l2 (AllFirstOrder_length _ _ hms) hstride
+  rw [walk_eq T.coef _ hl, r1, r2, r3, specSum_window T.coef _ r4]
+  simp
+
+theorem allFirstOrder_replicate_value : ∀ (ds : List (Dim α)), AllFirstOrder ds (List.replicate ds.length .value) := by
+  intro ds
+  induction ds with
+  | nil => trivial
+  | cons d ds ih => exact ⟨Or.inl rfl, ih⟩
+
+theorem allFirstOrder_maskModes (ds : List (Dim α)) (mask : Nat) : AllFirstOrder ds (maskModes ds.length mask) := by
+  unfold maskModes
+  suffices h : ∀ (ds : List (Dim α)) (k : Nat), AllFirstOrder ds ((List.range' k ds.length).map fun n => if mask.testBit n then BasisMode.deriv1 else BasisMode.value) by
+    have := h ds 0
+    rwa [← List.range_eq_range'] at this
+  intro ds
+  induction ds with
+  | nil => intro k; trivial
+  | cons d ds ih =>
+    intro k
+    simp only [List.length_cons, List.range'_succ, List.map_cons]
+    refine ⟨?_, ih (k+1)⟩
+    by_cases hb : mask.testBit k = true
+    · simp [hb, FirstOrder]
+    · simp [hb, FirstOrder]
+
 /-- value evaluation = specification sum, given per-dimension facts about the centres -/
 theorem ndsplineeval_eq_specEval (T : Table α) (xs : List α) (cs : List Nat)
     (hok : AllOK T.dims xs cs) (hstride : lastStrideOne T.dims) :
     ndsplineeval T xs cs 0 = specEval T xs (List.replicate T.dims.length .value) := by
-  obtain ⟨r1, r2, r3, r4⟩ := rows_eq_winRows T.dims xs cs hok
-  obtain ⟨l1, l2⟩ := AllOK_lengths T.dims xs cs hok
-  unfold ndsplineeval evalModes specEval
+  unfold ndsplineeval
   rw [maskModes_zero]
-  have hl := rows_lastStride T.dims xs cs (List.replicate T.dims.length .value) l1 l2 (by simp) hstride
-  rw [walk_eq T.coef _ hl, r1, r2, r3, specSum_window T.coef _ r4]
-  simp
+  exact evalModes_eq_specEval T xs cs _ hok (allFirstOrder_replicate_value _) hstride
+
+/-- bitmask-derivative evaluation = specification sum with the knot-difference derivative formula in
+the selected dimensions -/
+theorem ndsplineeval_mask_eq_specEval (T : Table α) (xs : List α) (cs : List Nat) (mask : Nat)
+    (hok : AllOK T.dims xs cs) (hstride : lastStrideOne T.dims) :
+    ndsplineeval T xs cs mask = specEval T xs (maskModes T.dims.length mask) :=
+  evalModes_eq_specEval T xs cs _ hok (allFirstOrder_maskModes _ _) hstride
 
 end PsV
